@@ -36,6 +36,7 @@ import (
 
 	dherrors "github.com/dolthub/dolt/go/libraries/utils/errors"
 	"github.com/dolthub/dolt/go/libraries/utils/file"
+	"github.com/dolthub/dolt/go/libraries/utils/verifhook"
 	"github.com/dolthub/dolt/go/store/chunks"
 	"github.com/dolthub/dolt/go/store/hash"
 	"github.com/dolthub/dolt/go/store/util/tempfiles"
@@ -506,6 +507,7 @@ func updateWithChecker(_ context.Context, behavior dherrors.FatalBehavior, dir s
 		if ferr = temp.Sync(); ferr != nil {
 			return "", ferr
 		}
+		verifhook.At("manifest.tempSynced")
 
 		return temp.Name(), nil
 	}()
@@ -575,7 +577,9 @@ func updateWithChecker(_ context.Context, behavior dherrors.FatalBehavior, dir s
 		return manifestContents{}, err
 	}
 
+	verifhook.At("manifest.beforeRename")
 	err = file.Rename(tempManifestPath, manifestPath)
+	verifhook.At("manifest.afterRename")
 	if err != nil {
 		// Errors up until this point are fallible, because the manifest itself hasn't been
 		// committed. An error here or later, however, means the directory could be in an unknown
@@ -586,6 +590,7 @@ func updateWithChecker(_ context.Context, behavior dherrors.FatalBehavior, dir s
 	if err = file.SyncDirectoryHandle(dir); err != nil {
 		return manifestContents{}, dherrors.Fatalf(behavior, "%w: error fsyncing directory after manifest file rename", err)
 	}
+	verifhook.At("manifest.afterDirSync")
 
 	return newContents, nil
 }
